@@ -1,5 +1,6 @@
 -- Root of the `ColaVerif` library: everything `lake build` (MANIFEST.setup_cmd) compiles.
 import ColaVerif.Basic.GInt
+import ColaVerif.Basic.GRat
 import ColaVerif.Model.Matmat
 import ColaVerif.Model.Wf
 import ColaVerif.Model.Bound
